@@ -54,7 +54,7 @@ def trait(*keys):
 
 def install(vm):
     vm.models = MODELS
-    from . import std_iter, std_coll, std_str, std_fmt   # noqa: F401  (register their models)
+    from . import std_iter, std_coll, std_str, std_fmt, std_io   # noqa: F401  (register their models)
 
 
 # ------------------------------------------------------------------ helpers
@@ -470,9 +470,22 @@ def deref_value(vm, place_ref, v):
 def _(vm, a, ci):
     r = a[0]
     v = vm.ref_get(r) if isinstance(r, Ref) else r
+    if isinstance(v, Opaque) and v.kind == 'static': return lazy_static_value(vm, v.data)
     if isinstance(v, SymEnum): v = conc(vm, v)
     if not isinstance(r, Ref): r = Ref(Cell(v))
     return deref_value(vm, r, v)
+
+
+def lazy_static_value(vm, ty):
+    """lazy_static!: the real initialiser's MIR is run once (concretely) and its value shared, read-only, by all paths"""
+    cache = vm.mir.__dict__.setdefault('_lazy_values', {})
+    if ty not in cache:
+        fs = vm.mir.by_name.get('__static_ref_initialize', [])
+        if len(fs) != 1: raise Unmodelled(f'lazy_static {ty}: expected exactly one initialiser in the MIR, found {len(fs)}')
+        from .vm import VM, Explorer
+        sub = VM(vm.mir, Explorer()); sub.str_mode = 'bounded'
+        cache[ty] = Cell(sub.run_fn(fs[0], [], {}))
+    return Ref(cache[ty])
 
 
 @trait(('str', 'AsRef', 'as_ref'), ('&', 'AsRef', 'as_ref'), ('str', 'Borrow', 'borrow'), ('&', 'Borrow', 'borrow'),
@@ -543,6 +556,9 @@ def _(vm, a, ci):
 @trait(('Into', 'into'))
 def _(vm, a, ci):
     src, dst = ci.selfty, ci.targs[0]
+    if src.startswith('impl ') or (re.fullmatch(r'[A-Z]\w*', src) and src not in vm.mir.src.structs and src not in vm.mir.src.enums and src not in ('String',)):
+        rt = vm.runtime_type(a[0])      # `impl Trait` / unbound generic argument: use the value's runtime type
+        if rt != '_': src = rt
     if src == dst: return a[0]
     return vm.call(f'<{dst} as From<{src}>>::from', a, None, None, subst={})
 
